@@ -830,7 +830,7 @@ def large_object_corruption(wd: Path, rng):
     dep = Deployment(wd, 2, None)
     res = dep.run('init', '--encryption', 'none', '--chunking.min-length', 2_000_000, '--chunking.max-length', 3_000_000, '--hashing.length', 32)
     if not res.ok:
-        return [{'what': 'init failed in the large-object probe: ' + res.err[-200:], 'signature': {'kind': '_harness'}, 'replay': {'probe': 'large'}}]
+        return [{'what': 'init failed in the large-object probe: ' + res.err[-1500:], 'signature': {'kind': '_harness'}, 'replay': {'probe': 'large'}}]
     src = wd / 'big'
     src.mkdir()
     content = rng.randbytes(2_600_000)
@@ -839,7 +839,7 @@ def large_object_corruption(wd: Path, rng):
     objs, _ = dep.disk()
     chunks = sorted((n for n in objs if n.startswith('data/')), key=lambda n: -objs[n][0])
     if not res.ok or not chunks:
-        return [{'what': 'snapshot failed in the large-object probe: ' + res.err[-200:], 'signature': {'kind': '_harness'}, 'replay': {'probe': 'large'}}]
+        return [{'what': 'snapshot failed in the large-object probe: ' + res.err[-1500:], 'signature': {'kind': '_harness'}, 'replay': {'probe': 'large'}}]
     target = dep.repo / chunks[0]
     orig = target.read_bytes()
     for off in (len(orig) - 1, len(orig) // 2 + 4321, 1_048_576 + 17, 70_000):
@@ -1073,7 +1073,7 @@ def scan_fault_probe(ctx, rep, mine):
 
     def one(job):
         command, k, errno_name = job
-        copy = wd / f'copy-{command}-{k}-{errno_name}'
+        copy = wd / f'copy-{command}-{abs(hash((k, errno_name))) % 10 ** 9}-{errno_name}'
         shutil.copytree(master, copy, symlinks=True)
         dep2 = Deployment.__new__(Deployment)
         dep2.__dict__.update(sc.dep.__dict__)
@@ -1096,6 +1096,8 @@ def scan_fault_probe(ctx, rep, mine):
             what = f'{command} while directory scan #{k} fails with EIO after its first entry'
         elif errno_name == 'unreadable':
             what = f'{command} while the snapshot object {k[:22]}.. cannot be read (EIO for good)'
+        if os.environ.get('VERIF_DEBUG'):
+            print('DEBUG', what, res.rc, len(base), len(after), res.err[-1500:].replace('\n', ' | '))
         if res.rc == -100:
             sc.v('hang', what + ': the command does not end')
         sc.restorable_check(what, after)
